@@ -186,7 +186,8 @@ def rw45(F, R):
 
 def rw6(F, R):
     c = G.context(F)
-    allow = {"edges_write": {"Sodg::bind", "Sodg::add"}, "edges_call": {"Sodg::bind", "Sodg::add"},
+    # data() may blank a removed member (accepted alternative idiom of GC7; GC8 checks it is only a reset of removed members)
+    allow = {"edges_write": {"Sodg::bind", "Sodg::add", "Sodg::data"}, "edges_call": {"Sodg::bind", "Sodg::add", "Sodg::data"},
              "data_write": {"Sodg::put", "Sodg::add", "Sodg::data"}, "pers_write": {"Sodg::put", "Sodg::data", "Sodg::add"}}
     n = 0
     for e in c.all:
